@@ -117,3 +117,10 @@ PANIC_KEYS = {
     "core::result::unwrap_failed", "core::panicking::panic_bounds_check", "core::option::unwrap_failed",
     "std::rt::begin_panic", "core::panicking::unreachable_display",
 }
+
+# std types with a lifetime parameter that only hold *shared* borrows
+SHARED_BORROW_ADTS = {
+    "Iter", "Keys", "Values", "Difference", "Intersection", "Union", "SymmetricDifference", "Chunks", "Windows",
+    "Range", "Copied", "Cloned", "Enumerate", "Map", "Filter", "FilterMap", "FlatMap", "Chain", "Zip", "Skip",
+    "StepBy", "Rev", "Take", "Peekable", "Arguments", "Argument", "Split", "Chars", "Bytes", "Cow",
+}
